@@ -588,12 +588,16 @@ fn jop() -> impl Strategy<Value = JOp> {
     ]
 }
 
+pub fn journal_strategy() -> BoxedStrategy<JournalCase> {
+    (0u8..5, prop::collection::vec(jop(), 1..45)).prop_map(|(spec, ops)| JournalCase { spec, ops }).boxed()
+}
+
 pub fn c06(ctx: &mut Ctx) {
     let n = ctx.tier.pick(150_000, 5_000_000);
     ctx.run_cases(
         "journal-model",
         "stateful histories (<= 45 ops: load_account, load_code, sload, sstore, tstore/tload, transfer incl. > balance and overflowing a 2^256-100 receiver, inc_nonce incl. at 2^64-1, set_code, touch, log, selfdestruct to self/other/non-existent, create_account_checkpoint incl. collisions by code/nonce/storage and endowment overflow, nested checkpoint/commit/revert innermost-first) run on the real JournaledState over a plain database and on a snapshot-based functional model (checkpoint = deep copy, revert = restore); after EVERY op: balances, nonces, code hashes, touched/created/selfdestructed flags, warm/cold of accounts and slots, slot values, transient storage, log count and depth are compared; accounts/slots first loaded inside a reverted frame must be cold, untouched and hold database values; specs FRONTIER, SPURIOUS_DRAGON, LONDON, CANCUN, PRAGUE; non-trivial = a revert of a frame containing >= 2 different kinds of changes",
-        || (0u8..5, prop::collection::vec(jop(), 1..45)).prop_map(|(spec, ops)| JournalCase { spec, ops }),
+        journal_strategy,
         n,
         c06_case,
     );
